@@ -270,3 +270,23 @@ Definition trace_entries_match (e : env) (c : hcfg) (t0 : Z) (tr : list label) (
   | Some s => obs_list_eqb (map obs_of (whole s)) obs
   | None => false
   end.
+
+(* the generic driver against state snapshots taken from the implementation between the ticks *)
+Definition ohs_ok (s : hstate) (expected : option hstate) : bool :=
+  match expected with Some h => hstate_eqb s h | None => true end.
+
+Fixpoint run_check (e : env) (c : hcfg) (s : dstate) (tr : list (label * option hstate)) : option dstate :=
+  match tr with
+  | [] => Some s
+  | (l, expected) :: tr' =>
+      match step e c s l with
+      | Some s' => if ohs_ok (d_hs s') expected then run_check e c s' tr' else None
+      | None => None
+      end
+  end.
+
+Definition run_check_matches (e : env) (c : hcfg) (t0 : Z) (tr : list (label * option hstate)) (obs : list (Z * Z * Z)) : bool :=
+  match run_check e c (init t0) tr with
+  | Some s => obs_list_eqb (map obs_of (whole s)) obs
+  | None => false
+  end.
